@@ -244,7 +244,7 @@ type unit struct {
 	seq  []inType
 	k    int // boundary prefix length
 	chg  inType
-	mode int  // gridFull, gridSpec or gridLean (see Run)
+	mode int // gridFull, gridSpec or gridLean (see Run)
 }
 
 type classStats struct {
